@@ -21,6 +21,8 @@ cPatPrefix == <<"p","a","t","t","e","r","n"," ">>
 \* inside the block of a pattern statement: the next argument is not a pattern argument
 cPatBlkPrefix == <<"p","a","t","t","e","r","n"," ",cDQ,"x",cDQ," ","{","k"," ">>
 cPatBlkSuffix == <<";","}">>
+\* a very long line: a statement, then blanks up to column 4095
+cWidePrefix == <<"a", ";">> \o [i \in 1..4093 |-> " "]
 cCmtPrefix == <<"a", " ", "/", "*", "*", "/", " ">>
 cSqPrefix == <<"a", " ", cSQ, "q", cSQ, "+">>
 cMbPrefix == <<"E", " ", "/", "*", "E", cLF, "*", "/", cSQ, "E", cLF, cSQ, cTAB>>
